@@ -264,9 +264,15 @@ class Enumerator:
             for pc in condp:
                 base = p0.extend(pc)
                 if self.loop_mode == '01' and k != 'DoStmt':
-                    out.append(base.extend(self._cp((s, False, False))))
+                    skip = base.extend(self._cp((s, False, False)))
+                    if s.get('cond') is not None and k in ('WhileStmt', 'ForStmt'):
+                        skip = skip.extend(self._cp((s['cond'], False, False)))
+                    out.append(skip)
                 for q in bodyp:
-                    r = base.extend(self._cp(loopmark)).extend(q)
+                    enter = base.extend(self._cp(loopmark))
+                    if s.get('cond') is not None and k in ('WhileStmt', 'ForStmt'):
+                        enter = enter.extend(self._cp((s['cond'], True, False)))
+                    r = enter.extend(q)
                     if r.end in ('break', 'continue'):
                         r.end = None
                         out.append(r)
